@@ -912,7 +912,12 @@ class _Normalise(ast.NodeTransformer):
         if not (isinstance(st, ast.For) and not st.orelse and isinstance(st.target, ast.Name) and isinstance(st.iter, (ast.Tuple, ast.List))):
             return None
         elts = st.iter.elts
-        if not (1 <= len(elts) <= 6) or not all(_is_simple_expr(e) for e in elts):
+        def ctor_like(e):
+            # `ClassName()` / `mod.ClassName(simple args)`: building a value object (the code base's messages are dataclasses)
+            d = _dotted(e.func) if isinstance(e, ast.Call) else None
+            return bool(d) and d.split(".")[-1][:1].isupper() and all(_is_simple_expr(a) for a in e.args) and all(k.arg and _is_simple_expr(k.value) for k in e.keywords)
+
+        if not (1 <= len(elts) <= 6) or not all(_is_simple_expr(e) or ctor_like(e) for e in elts):
             return None
         v = st.target.id
         for b in st.body:
@@ -1261,6 +1266,92 @@ def _respell_imports(tree: ast.Module, modname: str, ref_imports: dict, notes: l
     return tree
 
 
+class _Walrus(ast.NodeTransformer):
+    """`if (x := E) ...:` / `stmt(... (x := E) ...)`: when the assignment expression is the first thing the statement evaluates
+    (and, for an `if`, sits in its test), it is hoisted: `x = E` followed by the statement using `x`."""
+
+    def _blocks(self, node):
+        for field in ("body", "orelse", "finalbody"):
+            b = getattr(node, field, None)
+            if isinstance(b, list) and b and isinstance(b[0], ast.stmt):
+                setattr(node, field, self._block(b))
+
+    def generic_visit(self, node):
+        super().generic_visit(node)
+        if isinstance(node, (ast.stmt, ast.Module, ast.ExceptHandler, ast.match_case)):
+            self._blocks(node)
+        return node
+
+    @staticmethod
+    def _first_walrus(expr):
+        """the NamedExpr that is evaluated before anything with a side effect in expr, or None"""
+        order = []
+
+        def post(e):
+            if isinstance(e, (ast.Lambda, ast.ListComp, ast.SetComp, ast.DictComp, ast.GeneratorExp)):
+                return
+            if isinstance(e, ast.BoolOp):
+                post(e.values[0])  # only the first operand is evaluated unconditionally
+                order.append(("stop", e))
+                return
+            if isinstance(e, ast.IfExp):
+                post(e.test)
+                order.append(("stop", e))
+                return
+            if isinstance(e, ast.NamedExpr):
+                post(e.value)
+                order.append(("walrus", e))
+                return
+            for ch in ast.iter_child_nodes(e):
+                if isinstance(ch, ast.expr):
+                    post(ch)
+            if isinstance(e, (ast.Call, ast.Await)):
+                order.append(("effect", e))
+
+        post(expr)
+        for kind, e in order:
+            if kind == "walrus":
+                # effects inside its own value are part of it; anything before it disqualifies
+                return e
+            if kind == "effect":
+                inner = False
+                for k2, w in order:
+                    if k2 == "walrus" and any(x is e for x in ast.walk(w.value)):
+                        inner = True
+                if not inner:
+                    return None
+            if kind == "stop":
+                return None
+        return None
+
+    def _block(self, stmts):
+        out = []
+        for st in stmts:
+            while True:
+                expr = None
+                if isinstance(st, ast.If):
+                    expr = st.test
+                elif isinstance(st, (ast.Expr, ast.Assign, ast.Return, ast.AugAssign, ast.AnnAssign)) and getattr(st, "value", None) is not None:
+                    expr = st.value
+                w = self._first_walrus(expr) if expr is not None else None
+                if w is None or not isinstance(w.target, ast.Name):
+                    break
+                a = ast.Assign(targets=[ast.Name(id=w.target.id, ctx=ast.Store())], value=w.value)
+                ast.copy_location(a, w)
+                ast.fix_missing_locations(a)
+                out.append(a)
+
+                class R(ast.NodeTransformer):
+                    def visit_NamedExpr(s2, node):
+                        if node is w:
+                            return ast.copy_location(ast.Name(id=w.target.id, ctx=ast.Load()), node)
+                        return s2.generic_visit(node)
+
+                st = R().visit(st)
+            out.append(st)
+        return out
+
+
 class _SuppressToTry(ast.NodeTransformer):
     """`with contextlib.suppress(E1, E2): BODY`  ->  `try: BODY / except (E1, E2): pass` (the documented meaning)."""
 
@@ -1468,6 +1559,7 @@ def canonicalise(tree: ast.Module, modname: str, is_package: bool = False):
             for k in sorted(set(inl.done)):
                 notes.append(f"inlined new helper {k}")
             tree = _drop_unreferenced(tree, {k: v[0] for k, v in helpers.items() if k in set(inl.done)})
+    tree = _Walrus().visit(tree)
     tree = _MatchToIf().visit(tree)
     tree = _SuppressToTry().visit(tree)
     tree = _OrDefault().visit(tree)
